@@ -270,6 +270,8 @@ def check(prop, tier, seed):
             plan = dict(m["plan"])
             if plan.get("sws") == "ALL":
                 plan["sws"] = [[]] + [[bool(i & 1), bool(i & 2), bool(i & 4), bool(i & 8)] for i in range(16)]
+            elif plan.get("sws") == "SOME":
+                plan["sws"] = [[]] + [[bool(i & 1), bool(i & 2), bool(i & 4), bool(i & 8)] for i in (15, 1, 2, 4, 8)]
             for c in cs:
                 c["plan"] = plan
         for c in cs:
